@@ -419,6 +419,7 @@ P["C13"] = {
     "obligations": [
         K("c13.enc.read", "uio.rs", UIO + "c13_enc_read", "READ == pread(fd, spare part of buffer, spare capacity, offset | current position); decode appends n", ["io_uring::io::ReadOp"]),
         K("c13.enc.read_pool", "uio.rs", UIO + "c13_enc_read_pool", "pool read: BUFFER_SELECT + group id, no address; decode -> owned slot", ["io_uring::io::ReadOp"]),
+        K("c13.enc.read_pool_limited", "uio.rs", UIO + "c13_enc_read_pool_limited", "read(pool.get().limit(n)): still a buffer-select read from the pool's group  [KNOWN FINDING F17]", ["io_uring::io::ReadOp", "io::traits::<impl BufMut for LimitedBuf<B>>"]),
         K("c13.enc.write", "uio.rs", UIO + "c13_enc_write", "WRITE == pwrite(fd, buf, len, offset); extract returns the caller's buffer", ["io_uring::io::WriteOp"]),
         K("c13.enc.vectored", "uio.rs", UIO + "c13_enc_vectored", "READV/WRITEV: iovec array inside Resources, count, offset; decode fills front to back", ["io_uring::io::ReadVectoredOp", "io_uring::io::WriteVectoredOp"]),
         K("c13.enc.splice", "uio.rs", UIO + "c13_enc_splice", "SPLICE both directions", ["io_uring::io::SpliceOp"]),
